@@ -40,7 +40,7 @@ PROPS = {
         technique="Lean 4 proof (loop invariant by induction on fuel: accumulated ops denote the consumed prefix) + differential correspondence across engines",
     ),
     "C02": dict(
-        modules=["Copia.Props.C02", "Copia.Props.C02b"], namespaces=["Copia.C02"], runner="bb", bb_module="bb_bisync",
+        modules=["Copia.Props.C02", "Copia.Props.C02b", "Copia.Props.C02c", "Copia.Props.C18b"], namespaces=["Copia.C02"], runner="bb", bb_module="bb_bisync",
         assumptions=_BI_ASSUME, trusted_base=_BI_TB,
         level_text="Kernel-checked WHOLE-RUN theorem `no_version_lost` for the model of `copia bisync` (scan, reconcile against the trusted archive, apply the whole plan to the live trees), for every pair of trees and every archive: "
                    "under NoNameClash the run never stops on an I/O error and every content either side held before is held by BOTH sides afterwards, unless it was exactly the recorded base at its path and the other side had changed or deleted it. "
@@ -51,7 +51,7 @@ PROPS = {
         technique="Lean 4 proof (run invariant by induction over the plan, case analysis over the reconcile table) + executable-model correspondence on histories + version-survival oracle",
     ),
     "C06": dict(
-        modules=["Copia.Props.C06", "Copia.Props.C02b"], namespaces=["Copia.C06"], runner="bb", bb_module="bb_bisync",
+        modules=["Copia.Props.C06", "Copia.Props.C02b", "Copia.Props.C02c", "Copia.Props.C18b"], namespaces=["Copia.C06"], runner="bb", bb_module="bb_bisync",
         assumptions=_BI_ASSUME, trusted_base=_BI_TB,
         level_text="Kernel-checked WHOLE-RUN theorems for the model of `copia bisync`, for every pair of trees and every archive, under NoNameClash: `converges` (the run completes; afterwards A and B hold the same content at every path and the archive written records exactly that tree) "
                    "and `second_run_noop` (the next run plans nothing, reports no conflict and leaves both trees as they are), `conflict_outcome` (a divergent edit ends on both sides as the greater-hash version at the path and the other at the conflict-copy name), `swap_run` (naming the roots the other way round leaves the same bytes at every path on both sides, for a total antisymmetric hash order). For all maps: a converged pair with a matching record plans nothing; swapping the roots mirrors every decision. "
@@ -61,7 +61,7 @@ PROPS = {
         technique="Lean 4 proof (run + archive invariants by induction over the plan) + executable-model correspondence on histories + convergence/idempotence/independence oracles",
     ),
     "C07": dict(
-        modules=["Copia.Props.C07", "Copia.Props.C07b"], namespaces=["Copia.C07"], runner="bb", bb_module="bb_bisync",
+        modules=["Copia.Props.C07", "Copia.Props.C07b", "Copia.Props.C02c", "Copia.Props.C18b"], namespaces=["Copia.C07"], runner="bb", bb_module="bb_bisync",
         assumptions=_BI_ASSUME + ["`Archive::load` = none for every fault kind is checked on the real binary (SAFE banner vs the harness's strict-JSON prediction), not proved (serde_json is not modelled)"],
         trusted_base=_BI_TB,
         level_text="Kernel-checked theorems for ALL tree pairs: with an untrusted archive the plan contains no delete, no non-delete action ever removes a path, hence a whole run (even one that stops on an I/O error) "
@@ -101,7 +101,7 @@ PROPS = {
         technique="Lean 4 proof over the run model + black-box second-run correspondence",
     ),
     "C08": dict(
-        modules=["Copia.Props.C08", "Copia.Props.C08b", "Copia.Props.C08c", "Copia.Props.C08d"], namespaces=["Copia.C08"], runner="bb", bb_module="bb_crash", timeout=3000,
+        modules=["Copia.Props.C08", "Copia.Props.C08b", "Copia.Props.C08c", "Copia.Props.C08d", "Copia.Props.C02c"], namespaces=["Copia.C08"], runner="bb", bb_module="bb_crash", timeout=3000,
         assumptions=_BI_ASSUME + ["'killed at any instant' is represented as 'before any libc call of the main thread' (strace injection); a kill inside one copy_file_range/write is covered by the staged file being opaque until renamed",
                                   "power loss is represented only by the ordering predicate fsync(staged data) → rename → record on the real trace, not by a page-cache model"],
         trusted_base=_BI_TB + ["strace (trace and signal injection)"],
